@@ -22,7 +22,8 @@ from sfc_models.sector import Sector
 
 TARGET = "x = 0.5*LX + G\nd = x + G\nLX = x(k-1)\nMaxTime = 2\nErr_Tolerance = 0.01"
 TARGET_FN = "x = 0.5*LX + fn(G)\nd = fn(x)\nLX = x(k-1)\nMaxTime = 2\nErr_Tolerance = 0.01"
-TARGETS = {"plain": (TARGET, {}), "user-function": (TARGET_FN, {"fn": lambda v: 2 * v + 1})}
+TARGET_SS = "x = G\nd = x + LX\nLX = x(k-1)\nMaxTime = 2\nErr_Tolerance = 0.01"
+TARGETS = {"plain": (TARGET, {}), "user-function": (TARGET_FN, {"fn": lambda v: 2 * v + 1}), "steady-state-init": (TARGET_SS, {})}
 OTHER = "a = 0.5*a + 3\nb = a + y\ny = 2\nx = 7\nMaxTime = 2"
 OPS = ['other-model', 'other-solver', 'logs-on', 'logs-off', 'trace', 're-solve', 're-parse', 'target-first']
 
@@ -49,6 +50,21 @@ def target_solve(es, g, x0):
     return es
 
 
+def public_solve(es, g, x0, tname):
+    """Solve through the public SolveEquation() (steady-state target) or step by step with an injected start value."""
+    if tname == 'steady-state-init':
+        es.ParameterSolveInitialSteadyState = True
+        es.ParameterInitialSteadyStateMaxTime = 3
+        es.SolveEquation()
+        return
+    if len(es.VariableList) == 0:
+        es.ExtractVariableList()
+    es.SetInitialConditions()
+    es.TimeSeries['x'][0] = SymReal(x0)
+    for step in range(1, es.Parser.MaxTime + 1):
+        es.SolveStep(step)
+
+
 def history_case(item):
     hist, tname = item
     TARGET, FUNCS = TARGETS[tname]
@@ -64,7 +80,9 @@ def history_case(item):
         es = EquationSolver(TARGET, run_equation_reduction=True)
         for fname, fobj in FUNCS.items():
             es.AddFunction(fname, fobj)
-        return target_solve(es, g, x0)
+        es.Parser.Exogenous.append(('G', [SymReal(g[0])] + [SymReal(v) for v in g]))
+        public_solve(es, g, x0, tname)
+        return es
 
     def path():
         Logger.cleanup()
@@ -100,20 +118,12 @@ def history_case(item):
         if hist and hist[0] == 're-parse' or 're-parse' in hist:
             # public API only: the documented way to solve is SolveEquation(); exogenous symbolic values are injected first
             pass
-        es.Parser.Exogenous.append(('G', [0.0] + [SymReal(v) for v in g]))
-        if len(es.VariableList) == 0:
-            es.ExtractVariableList()
-        es.SetInitialConditions()
-        es.TimeSeries['x'][0] = SymReal(x0)
+        es.Parser.Exogenous.append(('G', [SymReal(g[0])] + [SymReal(v) for v in g]))
         try:
-            for step in range(1, es.Parser.MaxTime + 1):
-                es.SolveStep(step)
+            public_solve(es, g, x0, tname)
             if resolve:
-                # solve the same solver again from the same k=0 values
-                es.SetInitialConditions()
-                es.TimeSeries['x'][0] = SymReal(x0)
-                for step in range(1, es.Parser.MaxTime + 1):
-                    es.SolveStep(step)
+                # solve the same solver again (same settings as the first time)
+                public_solve(es, g, x0, tname)
         except ValueError:
             Logger.cleanup()
             return 'raised'
@@ -169,6 +179,7 @@ def histories(tier):
             out.append(h)
     items = [(h, 'plain') for h in out]
     items += [(h, 'user-function') for h in out if len(h) <= (1 if tier == 'quick' else 2)]
+    items += [(h, 'steady-state-init') for h in out if len(h) <= (1 if tier == 'quick' else 2)]
     return items
 
 
@@ -182,7 +193,11 @@ hist = %(hist)r
 TARGET, FUNCS = TARGETS[%(tname)r]
 vals = {k: float(F(v)) for k, v in %(vals)r.items()}
 def run(es):
-    es.Parser.Exogenous.append(('G', [0.0, vals['g1'], vals['g2']]))
+    es.Parser.Exogenous = [e for e in es.Parser.Exogenous if e[0] != 'G']
+    es.Parser.Exogenous.append(('G', [vals['g1'], vals['g1'], vals['g2']]))
+    if %(tname)r == 'steady-state-init':
+        es.ParameterSolveInitialSteadyState = True; es.ParameterInitialSteadyStateMaxTime = 3
+        es.SolveEquation(); return
     if len(es.VariableList) == 0: es.ExtractVariableList()
     es.SetInitialConditions(); es.TimeSeries['x'][0] = vals['x0']
     for step in (1, 2): es.SolveStep(step)
